@@ -763,8 +763,72 @@ pub fn case_line(ver: u64, b: &Body, st: &mut PkStats) -> String {
     s
 }
 
+/// a v5.0 PUBLISH that is EDITED after it was built (the functions the connection uses for topic-alias
+/// handling and for the stored form), with a property block next to the 127/128 boundary where the
+/// Property Length changes width.  The abstract packet of the case is read back from the accessors of the
+/// edited packet; the line is judged like any built packet (bytes = reference encoding, size, re-parse).
+pub fn edited_case(rng: &mut Rng, st: &mut PkStats) -> Option<String> {
+    let l = rng.range(118, 136) as usize;                 // property block length before the edit
+    let dir = rng.below(4);
+    let has_alias = dir >= 2;
+    let fill = l.saturating_sub(6 + if has_alias { 3 } else { 0 });
+    let mut props = vec![AProp { id: 38, val: PVal::Pair(b"k".to_vec(), vec![b'x'; fill]) }];
+    if has_alias { props.push(AProp { id: 35, val: PVal::U16(1) }) }
+    let topic: Vec<u8> = if dir == 3 { Vec::new() } else { b"t/1".to_vec() };
+    let qos = rng.below(3);
+    let b = Body::Publish { dup: false, qos, retain: false, topic, pid: if qos > 0 { Some(1) } else { None }, props, payload: vec![1, 2, 3] };
+    let p = build(5, &b)?;
+    let edited: Packet = match p {
+        GenericPacket::V5_0Publish(x) => {
+            let y = match dir {
+                0 => x.add_topic_alias(2),
+                1 => x.remove_topic_add_topic_alias(2),
+                2 => x.remove_topic_alias(),
+                _ => x.remove_topic_alias_add_topic("t/22".to_string()).ok()?,
+            };
+            y.into()
+        }
+        _ => return None,
+    };
+    let (av, ab) = accessors(&edited);
+    let mut o: Vec<u64> = Vec::new();
+    tokens(av, &ab, &mut o);
+    st.built += 1;
+    let p = edited;
+    let r = catch_unwind(AssertUnwindSafe(|| {
+        let bytes = p.to_continuous_buffer();
+        let size = p.size();
+        let mut cat: Vec<u8> = Vec::new();
+        for sl in p.to_buffers() { cat.extend_from_slice(&sl) }
+        let (re_eq, cons_ok) = match parse_whole(5, &bytes) { Some(Ok((q, n))) => (q == p, n), _ => (false, usize::MAX) };
+        (bytes, size, cat, re_eq, cons_ok)
+    }));
+    match r {
+        Err(_) => { st.panics += 1; o.push(2) }
+        Ok((bytes, size, cat, re_eq, consumed)) => {
+            let mut i = 1;
+            while i < bytes.len() && bytes[i] & 0x80 != 0 { i += 1 }
+            let hdr = i + 1;
+            o.push(1);
+            push_bytes(&mut o, &bytes);
+            o.push(size as u64);
+            o.push((cat == bytes) as u64);
+            o.push(re_eq as u64);
+            o.push((consumed != usize::MAX && consumed + hdr == bytes.len()) as u64);
+            o.push(1);
+        }
+    }
+    let mut s = String::with_capacity(o.len() * 4 + 4);
+    s.push_str("pk");
+    for x in &o { s.push(' '); s.push_str(&x.to_string()) }
+    Some(s)
+}
+
 pub fn gen_cases(rng: &mut Rng, n: usize, out: &mut Vec<String>, st: &mut PkStats) {
-    for _ in 0..n {
+    for k in 0..n {
+        if k % 12 == 5 {
+            if let Some(l) = edited_case(rng, st) { out.push(l); continue }
+        }
         let ver = if rng.chance(1, 3) { 4 } else { 5 };
         let ty = if ver == 5 { rng.range(1, 15) } else { rng.range(1, 14) };
         let ty = if rng.chance(1, 4) { *rng.pick(&[1u64, 3, 3, 8]) } else { ty };
